@@ -41,7 +41,12 @@ static bool match(const std::vector<Pt>& A, const std::vector<Pt>& B, double c, 
 }
 extern "C" void harness() {
   std::vector<std::vector<double> > dm(N); double D[N][N];
+#ifdef VP_LINE   /* integer points 0..VP_LINE on a line (distinct, any order): exact ties between insertion radii, edge values and their dyadic multiples */
+  { int pos[N]; for (int i = 0; i < N; i++) { pos[i] = vp_fork_int(vp_int("pos", 0, VP_LINE)); for (int j = 0; j < i; j++) vp_assume(pos[j] != pos[i]); }
+    for (int i = 0; i < N; i++) { D[i][i] = 0; for (int j = 0; j < i; j++) { double d = pos[i] > pos[j] ? pos[i] - pos[j] : pos[j] - pos[i]; dm[i].push_back(d); D[i][j] = D[j][i] = d; } } }
+#else
   for (int i = 0; i < N; i++) { D[i][i] = 0; for (int j = 0; j < i; j++) { double d = vp_double_grid_forked("d", 1.0, 0.5, VP_GRIDN); dm[i].push_back(d); D[i][j] = D[j][i] = d; } }
+#endif
   for (int i = 0; i < N; i++) for (int j = 0; j < N; j++) for (int k = 0; k < N; k++) if (i != j && j != k && i != k) vp_assume(D[i][k] <= D[i][j] + D[j][k]);
 #ifdef VP_VALIDITY_ONLY
   static const double epss[5] = {0.25, 0.5, 0.75, 1.0, 2.0}; double eps = epss[vp_fork_int(vp_int("eps", 0, 4))];
